@@ -362,6 +362,7 @@ theorem segMatchValues_store (negate : Bool) (chain : List String) (vs : List J)
     | num q => simp only [segMatchValues, ih]
     | arr xs => simp only [segMatchValues, ih]
     | obj kvs => simp only [segMatchValues, ih]
+    | raw w => simp only [segMatchValues, ih]
 
 theorem clauseMatch_store (chain : List String) (c : Clause) (hc : c.pre = {}) (st : St) :
     clauseMatch rec' (preEnv env) chain { c with pre := preprocessClause env.rx c } st =
@@ -594,6 +595,41 @@ example :
   · simp [Clause.valueAsRegexp, preprocessClause]
     split <;> rfl
   · simp [Clause.valueAsRegexp, parseRegexp]
+
+/-! #### Unparsed (raw) clause values: both paths treat them alike
+
+`asPrimitiveValueKey`, `parseDateTime` / `ValueToTimestamp` switch on `Type()` in the preprocessing
+step *and* on the fly; `parseRegexp`, `parseSemVer` ask `IsString()` in both.  So the theorems above
+hold for raw clause values with no side condition; these examples show what the tables contain. -/
+
+/-- A raw clause value is not a valid primitive key: no equality-set table is built … -/
+def exInRaw : Clause :=
+  { attr := { raw := "a", single := "a" }, op := "in", values := [.num 1, .raw (.str "1")] }
+
+example : (preprocessClause rx exInRaw).valuesMap = none := by
+  simp [preprocessClause, exInRaw, asPrimKey, PrimKey.isValid]
+
+/-- … and the linear search, whose `Equal` parses, finds the plain `"1"` with and without
+preprocessing, and the raw `"1"` in neither case. -/
+example :
+    ({ exInRaw with pre := preprocessClause rx exInRaw }).findValue (.str "1") = true ∧
+    ({ exInRaw with pre := {} }).findValue (.str "1") = true ∧
+    ({ exInRaw with pre := preprocessClause rx exInRaw }).findValue (.raw (.str "1")) = false ∧
+    ({ exInRaw with pre := {} }).findValue (.raw (.str "1")) = false := ⟨rfl, rfl, rfl, rfl⟩
+
+/-- A raw number is no timestamp for the table, exactly as on the fly … -/
+example : (preprocessClause rx { op := "before", values := [.num 5, .raw (.num 5)] }).values =
+    some [{ valid := true, time := 5000000 }, { valid := false }] := by
+  simp [preprocessClause, Time.valueToTimestamp]
+  decide
+example : ({ op := "before", values := [.num 5, .raw (.num 5)] } : Clause).valueAsTimestamp 1 = none := rfl
+
+/-- … while a raw pattern is compiled for the table, exactly as on the fly. -/
+example : (preprocessClause (fun _ _ => some true) { op := "matches", values := [.raw (.str "a")] }).values =
+    some [{ valid := true, regex := some "a" }] := by
+  simp [preprocessClause, parseRegexp]
+example : ({ op := "matches", values := [.raw (.str "a")] } : Clause).valueAsRegexp
+    (fun _ _ => some true) 0 = some "a" := rfl
 
 def exFlag : Flag :=
   { key := "f", on := true, targets := [{ values := ["k"], variation := 1 }],
